@@ -9,6 +9,7 @@ B  whole pipeline on the store / pointer-bump / load family of both ISAs vs. the
    (bounded/dg_oracle.py C06); ISASemantics.get_reg_changes (uses exec) is only covered there.
 """
 import itertools
+import os
 import z3
 
 from pyvc.engine import Engine
@@ -336,6 +337,8 @@ def units(tier):
     for prefix in (None, "x"):
         us.append(Unit(f"C06/is_memload/other-view-written/prefix={prefix}", memload_views_unit(prefix), "P", [(KDG, "KernelDG.is_memload"), (KDG, "KernelDG._changed_through_other_view")], timeout=900))
     us += [
+        Unit("C06/get_reg_changes/x86(every ISA-DB operation)", reg_changes_unit("x86"), "P", [(ISA, "ISASemantics.get_reg_changes")]),
+        Unit("C06/get_reg_changes/aarch64(every ISA-DB operation, pre-/post-index)", reg_changes_unit("aarch64"), "P", [(ISA, "ISASemantics.get_reg_changes")]),
         Unit("C06/_has_pre_indexed_access", has_pre_indexed_unit, "P", [(KDG, "KernelDG._has_pre_indexed_access")]),
         Unit("C06/find_depending(memory branch)", find_depending_unit, "P", [(KDG, "KernelDG.find_depending")]),
         Unit("C06/create_DG(edge weights)", create_dg_unit, "P", [(KDG, "KernelDG.create_DG")]),
@@ -346,3 +349,143 @@ def units(tier):
                      (ISA, "ISASemantics.get_reg_changes"), (KDG, "KernelDG.create_DG")], extra_args=["C06"], timeout=1500),
     ]
     return us
+
+
+def reg_changes_unit(isa):
+    """P: ISASemantics.get_reg_changes (real code, incl. exec of the entry's operation string by the engine) for EVERY entry of
+    the shipped ISA database that carries an operation (read from the YAML on every run), with symbolic immediates: the
+    tracked change of the written register is the architectural one - add/sub immediate: the register itself +/- the
+    immediate; inc/dec: +/- 1; register copy: the source register with change 0; AArch64 add/sub immediate into another
+    register: the source register +/- the immediate - also when source and destination are the same register.  Forms without
+    entry or operation: every written register is unknown (None).  Pre-index: base + offset; post-index: 0 in the pre-access
+    pass, the post-index immediate in the post-access pass (unknown for a register post-index)."""
+    def unit(res):
+        import json, subprocess
+        ex = eng()
+        ex.load(REPO + "/" + ISA)
+        ex.no_init |= {"ISASemantics", "MachineModel"}
+        # the entries with an operation string, read from the shipped YAML by the repository's own YAML library (the proof
+        # interpreter itself has no YAML reader)
+        ypath = os.path.join(REPO, "osaca", "data", "isa", ("x86" if isa == "x86" else "aarch64") + ".yml")
+        out = subprocess.run(["/venv/bin/python", "-c", "import sys, json, ruamel.yaml as r; d = r.YAML(typ='safe').load(open(sys.argv[1])); "
+                              "print(json.dumps([dict(name=f['name'], operands=[dict(o) for o in f['operands']], operation=f['operation']) for f in d['instruction_forms'] if f.get('operation')]))", ypath],
+                             capture_output=True, text=True, check=True).stdout
+        entries = json.loads(out)
+        res.note(f"{len(entries)} entries with an operation string in isa/{isa}.yml")
+        regnames = ["rax", "rbx", "rcx"] if isa == "x86" else ["1", "2", "3"]
+        pf = "" if isa == "x86" else "x"  # (the w-register entries are run with x names: the operation is the same text)
+        IMM = z3.Int("imm")
+
+        def effect(name, kinds):
+            """architectural effect (independent of the operation string): (written operand index, source operand index, delta sign/None)"""
+            n = name.lower()
+            if isa == "x86":
+                if n in ("add", "sub") and kinds == ["immediate", "register"]:
+                    return (1, 1, 1 if n == "add" else -1)
+                if n in ("inc", "dec") and kinds == ["register"]:
+                    return (0, 0, ("const", 1 if n == "inc" else -1))
+                if n == "mov" and kinds == ["register", "register"]:
+                    return (1, 0, 0)
+            else:
+                if n in ("add", "sub", "adds", "subs") and kinds == ["register", "register", "immediate"]:
+                    return (0, 1, 1 if n.startswith("add") else -1)
+                if n == "mov" and kinds == ["register", "register"]:
+                    return (0, 1, 0)
+            return None
+
+        seen = 0
+        for f in entries:
+            names = f["name"] if isinstance(f["name"], list) else [f["name"]]
+            kinds = [o["class"] for o in f["operands"]]
+            eff = effect(names[0], kinds)
+            res.add(f"{names[0]}{kinds}/operation-has-a-known-architectural-meaning", [], eff is not None).update(detail=f.get("operation"))
+            if eff is None:
+                continue
+            seen += 1
+            for same in (False, True):  # destination register = source register (add x1, x1, #8)
+                if same and (eff[0] == eff[1]):
+                    continue
+
+                def run(f=f, kinds=kinds, eff=eff, same=same):
+                    new = lambda c, **kw: ex.instantiate(c, kw=kw)
+                    ops, e_ops = [], []
+                    k = 0
+                    for i, o in enumerate(f["operands"]):
+                        if o["class"] == "register":
+                            nm = regnames[eff[1]] if (same and i == eff[0]) else regnames[i]
+                            ops.append(new("RegisterOperand", name=nm, prefix=None if isa == "x86" else "x"))
+                        else:
+                            ops.append(new("ImmediateOperand", value=SNum(IMM, True)))
+                        e_ops.append(SObj("Operand", _source=bool(o.get("source")), _destination=bool(o.get("destination"))))
+                    entry = SObj("InstructionForm", _operation=f["operation"], _operands=e_ops)
+                    iform = new("InstructionForm", mnemonic=names[0], operands=ops, line="x", line_number=1)
+                    dests = [ops[i] for i, o in enumerate(f["operands"]) if o.get("destination")]
+                    iform.fields["_semantic_operands"] = {"source": [], "destination": [d for d, o in zip(dests, [o for o in f["operands"] if o.get("destination")]) if not o.get("source")],
+                                                          "src_dst": [d for d, o in zip(dests, [o for o in f["operands"] if o.get("destination")]) if o.get("source")]}
+                    ex.abstract["get_instruction"] = lambda ex_, so, a, kw: entry
+                    sem = SObj("ISASemantics", _isa=isa, _isa_model=SObj("MachineModel"))
+                    r = ex.call_method("ISASemantics", "get_reg_changes", sem, [iform])
+                    ex.extra.update(ops=ops)
+                    return r
+
+                paths = ex.explore(run, [])
+
+                def post(v, p, eff=eff, same=same):
+                    ops = p.extra["ops"]
+                    wname = pf + ops[eff[0]].fields["_name"]
+                    sname = pf + ops[eff[1]].fields["_name"]
+                    if not isinstance(v, dict) or set(v) != {wname}:
+                        return False
+                    c = v[wname]
+                    if not isinstance(c, dict):
+                        return False
+                    d = eff[2]
+                    want = z3.IntVal(d[1]) if isinstance(d, tuple) else (IMM * d if d else z3.IntVal(0))
+                    return z3.And(z3.BoolVal(c.get("name") == sname), num_term(c.get("value"))[0] == want)
+
+                res.add_paths(paths, post, kind=f"{names[0]}{kinds}/same-register={int(same)}")
+        res.add("entries-with-operation-covered", [], seen >= 1 and seen == len(entries))
+        # ---- no entry / no operation: unknown; pre-/post-index passes
+        OFF, POST = z3.Ints("offset post")
+        for case in ("no-entry", "pre-index", "post-index/pre-pass", "post-index/post-pass", "post-index-register/post-pass"):
+            if isa == "x86" and case != "no-entry":
+                continue
+
+            def run2(case=case):
+                new = lambda c, **kw: ex.instantiate(c, kw=kw)
+                r1, r2 = new("RegisterOperand", name=regnames[0], prefix=None if isa == "x86" else "x"), new("RegisterOperand", name=regnames[1], prefix=None if isa == "x86" else "x")
+                ops = [r1, r2]
+                so = {"source": [r2], "destination": [r1], "src_dst": []}
+                if case != "no-entry":
+                    base = new("RegisterOperand", name=regnames[1], prefix="x")
+                    mem = new("MemoryOperand", base=base, offset=new("ImmediateOperand", value=SNum(OFF, True)) if case == "pre-index" else None,
+                              pre_indexed=(case == "pre-index"),
+                              post_indexed=({"value": SNum(POST, True)} if case.startswith("post-index/") else {"identifier": {"name": "x9"}}) if case.startswith("post") else False)
+                    ops = [r1, mem]
+                    so = {"source": [mem], "destination": [r1], "src_dst": [base]}
+                iform = new("InstructionForm", mnemonic="ldr" if case != "no-entry" else "frob", operands=ops, line="x", line_number=1)
+                iform.fields["_semantic_operands"] = so
+                ex.abstract["get_instruction"] = lambda ex_, so_, a, kw: None
+                sem = SObj("ISASemantics", _isa=isa, _isa_model=SObj("MachineModel"))
+                return ex.call_method("ISASemantics", "get_reg_changes", sem, [iform] + ([True] if case.endswith("post-pass") else []))
+
+            paths = ex.explore(run2, [])
+
+            def post2(v, p, case=case):
+                if not isinstance(v, dict):
+                    return False
+                d, b = pf + regnames[0], pf + regnames[1]
+                if case == "no-entry":
+                    return set(v) == {d} and v[d] is None
+                if case == "pre-index":
+                    return z3.And(z3.BoolVal(set(v) == {d, b} and v[d] is None and isinstance(v[b], dict) and v[b].get("name") == b), num_term(v[b]["value"])[0] == OFF) if isinstance(v.get(b), dict) else False
+                if case == "post-index/pre-pass":
+                    return z3.And(z3.BoolVal(set(v) == {d, b} and v[d] is None and v[b].get("name") == b), num_term(v[b]["value"])[0] == 0) if isinstance(v.get(b), dict) else False
+                if case == "post-index/post-pass":
+                    return z3.And(z3.BoolVal(set(v) == {b} and v[b].get("name") == b), num_term(v[b]["value"])[0] == POST) if isinstance(v.get(b), dict) else False
+                return set(v) == {b} and v[b] is None
+
+            res.add_paths(paths, post2, kind=case)
+        return res
+
+    return unit
